@@ -1,1 +1,24 @@
-fn main() {}
+//! C15: "evaluators, ranges and showdowns can be moved to and shared between threads".
+//! This binary only has to compile: every probe is a `T: Send + Sync` bound.
+
+use espada::card::{Card, Rank, Suit};
+use espada::evaluator::{FlopExhaustiveEvaluator, MadeHand, Showdown};
+use espada::hand_range::{CardPair, HandRange, HandRangeToken, RankPair};
+
+fn assert_send_sync<T: Send + Sync>(name: &str) {
+    println!("Send+Sync: {}", name);
+}
+
+fn main() {
+    assert_send_sync::<FlopExhaustiveEvaluator>("FlopExhaustiveEvaluator");
+    assert_send_sync::<<FlopExhaustiveEvaluator as IntoIterator>::IntoIter>("FlopExhaustiveEvaluatorIterator");
+    assert_send_sync::<HandRange>("HandRange");
+    assert_send_sync::<Showdown>("Showdown");
+    assert_send_sync::<CardPair>("CardPair");
+    assert_send_sync::<MadeHand>("MadeHand");
+    assert_send_sync::<HandRangeToken>("HandRangeToken");
+    assert_send_sync::<RankPair>("RankPair");
+    assert_send_sync::<Card>("Card");
+    assert_send_sync::<Rank>("Rank");
+    assert_send_sync::<Suit>("Suit");
+}
